@@ -59,17 +59,23 @@ Fixpoint ocat (l : list (option str)) : option str :=
 
 Definition otrim (o : option str) : option str := match o with Some s => Some (trim s) | None => None end.
 
+(* Domain of the reference semantics: MediaWiki has its own size limits for argument values; mwlib caps a computed
+   argument value fetched for {{{x}}} at 256 KiB (evaluate.pyx:151-154: MemoryLimitError, the node is dropped).
+   An argument whose value as bound (trimmed if named) is longer than that is outside the property's domain:
+   `bind_args` returns None there, so `eval` is undefined on such a call. *)
 Fixpoint bind_args (ev : list ast -> option str) (args : list (option str * list ast)) (i : N) : option renv :=
   match args with
   | [] => Some []
   | (None, v) :: r =>
       match ev v, bind_args ev r (i + 1)%N with
-      | Some s, Some E => Some ((decimal i, s) :: E)              (* positional: bound untrimmed *)
+      | Some s, Some E => if too_long s then None
+                          else Some ((decimal i, s) :: E)         (* positional: bound untrimmed *)
       | _, _ => None
       end
   | (Some k, v) :: r =>
       match ev v, bind_args ev r i with
-      | Some s, Some E => Some ((k, trim s) :: E)                 (* named: trimmed *)
+      | Some s, Some E => if too_long (trim s) then None
+                          else Some ((k, trim s) :: E)            (* named: trimmed *)
       | _, _ => None
       end
   end.
@@ -215,6 +221,6 @@ Definition tpl_of (u : universe) (name : str) : option node :=
   end.
 
 (* the implementation model instantiated for a universe without magic names *)
-Definition impl_flatten (u : universe) (dn : list str) := flatten (tpl_of u) (fun _ => false) (fun _ _ => []) dn.
+Definition impl_flatten (u : universe) (dn : list str) := flatten (tpl_of u) (fun _ => false) (fun _ _ => MDone []) dn.
 Definition impl_expand (u : universe) (dn : list str) (limit : nat) (page : body) : res str :=
-  expand (tpl_of u) (fun _ => false) (fun _ _ => []) dn limit (compile_body page).
+  expand (tpl_of u) (fun _ => false) (fun _ _ => MDone []) dn limit (compile_body page).
